@@ -280,6 +280,9 @@ func TestVerifC27(t *testing.T) {
 						r.Violation(sig, fmt.Sprintf("%s crash image cut at byte %d (%s): /list reports media until %v after the first segment start, the complete parts on disk end at %v", im.kind, L, class, end, wantEnd), wit)
 					}
 				}
+				if r.WantSample() && images%41 == 1 {
+					r.Sample(map[string]any{"recording": fmt.Sprintf("video=%v audio=%v gop=%d fps=%d part=%v segment=%v", spec.Video, spec.Audio, spec.GOP, spec.FPS, spec.PartDuration, spec.SegmentDuration), "image": im.kind, "cut_at_byte": L, "of": len(B), "class": class, "complete_parts": nComplete, "list_status": st})
+				}
 				// get: everything from the first segment start
 				st, body, err = c27Get(hc, base+"/get?path=cam&duration=100&start="+starts[0].Format(time.RFC3339Nano))
 				if err != nil || !child.alive() {
